@@ -468,10 +468,54 @@ def rejected_init_leaves_uninitialised(ctx, rule='rejected-init-leaves-no-half-b
         raise AnalysisBroken('Arnoldi::init not analysed')
 
 
+def rejected_compute_changes_nothing(ctx, rule='rejected-call-leaves-the-object-unchanged'):
+    """compute() of the small decompositions rejects a non-square argument with std::invalid_argument.  The object may hold a
+    valid earlier decomposition (its `computed` flag stays true): the rejected call must not have changed any member before it
+    threw -- otherwise the accessors and apply methods go on working with the new size and the old arrays (wrong results without
+    an exception, or reads past the arrays).  On every path from the entry of the member to a throw of invalid_argument no field of
+    the object is written."""
+    from . import paths
+    n = 0
+    seen = set()
+    for fn in ctx.F.concrete():
+        if not (fn.cls or '').startswith('Spectra::') or fn.name != 'compute' or not fn.cfg or fn.mangled in seen:
+            continue
+        if '/LinAlg/' not in (fn.d.get('file') or fn.loc()):
+            continue
+        throws = [t for g, t in guards_of_throws(fn) if 'invalid_argument' in t.get('thrown', '')]
+        if not throws:
+            continue
+        seen.add(fn.mangled)
+        fe = ctx.E.of(fn)
+        writes = {}
+        for a in fe.accesses:
+            if a.mode == 'w' and a.path and not a.path[0].startswith('%'):
+                writes[a.node] = a.path[0]
+        for t in throws:
+            n += 1
+            tid = t['id']
+            hit = paths.search(fn, [], stop=lambda n_: False, target=lambda n_: n_['id'] in writes and
+                               paths.search(fn, [fn.pos_of(n_)], stop=lambda m_: False, target=lambda m_: m_['id'] == tid) is not None, include_entry=True)
+            first = None
+            if hit is not None:
+                for nid, fld in sorted(writes.items()):
+                    pos = fn.pos_of(fn.nodes[nid])
+                    if pos and paths.search(fn, [pos], stop=lambda m_: False, target=lambda m_: m_['id'] == tid) is not None:
+                        first = (fld, fn.s(fn.nodes[nid])[:40])
+                        break
+            ctx.check(hit is None, rule, '%s::compute' % fn.cls.replace('Spectra::', ''), fn.qname,
+                      'nothing is written before the rejection `%s`' % fn.s(t)[:60] if hit is None else
+                      'the member %s is written (`%s`) before the argument is rejected: after a rejected compute() on an object that holds a valid decomposition the `computed` flag is still true, '
+                      'the size is the one of the rejected matrix and the arrays are the old ones -- the apply methods / accessors then return wrong results or read past the arrays' % (first or ('?', '?')))
+    if n < 5:
+        raise AnalysisBroken('only %d rejecting compute() members found in LinAlg (7 confirmed by hand)' % n)
+
+
 def run(ctx):
     range_guards(ctx)
     validation_precedes_allocation(ctx)
     rejected_init_leaves_uninitialised(ctx)
+    rejected_compute_changes_nothing(ctx)
     thrown_types(ctx)
     c18.dispatch(ctx)
     sigma_guards(ctx)
